@@ -11,9 +11,9 @@ configuring the directories) is installed live and the *real*
 `ComponentsFileSystemFinder` is asked
 
   * `list([])`            - compared as a multiset with {file | exposed(file)},
-  * `find(q)`, `find(q, all=True)` for every file under every in-root spelling of its path
-    (`p`, `./p`, `sub/../p`) - compared with the first / all component directories in
-    which the file exists and is exposed,
+  * `find(q)` for every file under every in-root spelling of its path (`p`, `./p`,
+    `sub/../p`) and `find(p, all=True)` - compared with the first / all component
+    directories in which the file exists and is exposed,
   * `find(q)` for every traversal spelling (`../p`, `../<root>/p`, absolute paths inside and
     outside, the sibling-prefix directory, the file above the root, directories, ``""``)
     - whatever comes back must lie inside a component directory, be the file the request
@@ -330,6 +330,12 @@ class ConfigResult:
         self.expected = {}
 
 
+def _nice(rel):
+    """Enumeration order of files: shallow first, plain stems first (so that reported examples read well)."""
+    name = rel.rsplit("/", 1)[-1]
+    return (rel.count("/"), not name.startswith("a"), rel)
+
+
 def _inside(path, root):
     rp, rr = os.path.realpath(path), os.path.realpath(root)
     return rp == rr or rp.startswith(rr + os.sep)
@@ -344,7 +350,7 @@ def run_config(env, form, allowed, forbidden, only=None):
     res = ConfigResult()
     env.install(form, allowed, forbidden)
     finder, order = env.finder()
-    V = {lab: {rel: verdicts(allowed, forbidden, rel) for rel in tree["files"][lab]} for lab in order}
+    V = {lab: {rel: verdicts(allowed, forbidden, rel) for rel in sorted(tree["files"][lab], key=_nice)} for lab in order}
     n_exposed = sum(1 for lab in order for v in V[lab].values() if v == {True})
     n_hidden = sum(1 for lab in order for v in V[lab].values() if v == {False})
     res.nontrivial = n_exposed > 0 and n_hidden > 0
@@ -412,7 +418,7 @@ def run_config(env, form, allowed, forbidden, only=None):
         return in_order and all(x in got_ for x in want_min) and len(set(got_)) == len(got_)
 
     if only is None or only[0] in ("find", "find_all"):
-        rels = sorted({rel for lab in order for rel in V[lab]})
+        rels = sorted({rel for lab in order for rel in V[lab]}, key=_nice)
         for rel in rels:
             for q in in_root_forms(rel):
                 if only is not None and only[1] != q:
@@ -420,6 +426,8 @@ def run_config(env, form, allowed, forbidden, only=None):
                 for op in ("find", "find_all"):
                     if only is not None and only[0] != op:
                         continue
+                    if op == "find_all" and q != rel and only is None:
+                        continue  # all=True is exercised on the plain spelling only
                     try:
                         res.calls += 1
                         r = finder.find(q, all=True) if op == "find_all" else finder.find(q)
@@ -642,14 +650,15 @@ def run(ctx):
     try:
         cfgs = configs(ctx.tier)
         nfiles = sum(len(v) for v in tree["files"].values())
-        print(f"C17: {len(cfgs)} configurations x ({nfiles} files, 3 in-root spellings x find/find_all + list + traversal queries)", flush=True)
+        print(f"C17: {len(cfgs)} configurations x ({nfiles} files, find under 3 in-root spellings + find_all + list; + traversal queries)", flush=True)
         ev.rule = (
             "ENUM: a case is one (directory layout, setting spelling, allowed list, forbidden list, finder query) executed on the real "
             "ComponentsFileSystemFinder over one tree holding the whole file-name product; non-trivial = configurations under which the "
             "reference exposes at least one file and hides at least one"
         )
         agg = par.run_sharded(_worker, {"tree": tree, "tier": ctx.tier})
-        fnd.merge_reports(agg.failures)
+        fnd.merge_reports(sorted(agg.failures, key=lambda f: (len(repr(f[2]["allowed"])) + len(repr(f[2]["forbidden"])), LAYOUTS.index(f[2]["layout"]),
+                                                              FORMS.index(f[2]["form"]), repr(f[2]))))
         ev.add_part(
             "finder_find_list", states=agg.states, transitions=agg.transitions, validated=agg.validated, nontrivial=agg.nontrivial,
             observed_distinct=len(agg.observed), expected=agg.expected,
@@ -677,7 +686,8 @@ def run(ctx):
                 seen.add((op, clause))
                 fnd.report(f"e2e:{op}:{clause}:allowed={list_repr(a)};forbidden={list_repr(f)}",
                            f"allowed={list_repr(a)} forbidden={list_repr(f)}: {what}",
-                           {"part": "e2e", "index": idx})
+                           {"part": "e2e", "index": idx, "allowed": a, "forbidden": f, "layout": "multi", "via": op,
+                            "note": "end-to-end repetition of a finder-level configuration; see the finder:* identities for minimal inputs"})
         ev.add_part("collectstatic_and_serve", states=tot_judged, transitions=tot_calls, validated=tot_judged,
                     nontrivial=len(E2E_CONFIGS), observed_distinct=tot_obs, bound={"configurations": len(E2E_CONFIGS)},
                     samples=[{"allowed": list_repr(a), "forbidden": list_repr(f)} for a, f in E2E_CONFIGS[1:2]])
